@@ -177,9 +177,9 @@ impl Prop for Framing {
                         _ if glitchy => world2.borrow_mut().tape.draw(6),
                         _ => world2.borrow_mut().tape.draw(8),
                     };
-                    if api >= 6 && (kind >= 3 || i == n) {
+                    if api >= 6 && (frames::is_reply_kind(kind) || i == n) {
                         // through a chain's reply stream (reply target types only)
-                        let k = if i == n { 3 + i % 3 } else { kind };
+                        let k = if i == n { frames::REPLY_KINDS[i % 4] } else { kind };
                         let (calls, max_items) = if api_mode == 2 {
                             (2, (n + 1 - i).min(2))
                         } else {
